@@ -577,10 +577,17 @@ class CCA(CCABaseModel):
         else:
             blocks = [self._apply_E(view, c) for view, c in zip(views, self.c_)]
 
+        # The ridge that keeps D positive definite is relative to the magnitude of each view
+        blocks = [
+            block
+            + self.eps
+            * abs(block).max()
+            * xr.DataArray(np.eye(block.shape[0]), dims=block.dims, coords=block.coords)
+            for block in blocks
+        ]
         D = self._block_diag_dask(blocks, dims_in=["feature1", "feature2"])
 
         D_smallest_eig = self._apply_smallest_eigval(D, dims=["feature1", "feature2"])
-        D_smallest_eig = D_smallest_eig - self.eps
         identity_matrix = xr.DataArray(np.eye(D.shape[0]), dims=D.dims, coords=D.coords)
         D = D - D_smallest_eig * identity_matrix
         return D / len(views)
